@@ -253,7 +253,7 @@ impl<'a, R: Read> Lexer<Scanner<'a, R>> {
                 if !self.scanner.is_lower() {
                     return self.scanner.make_generic_err("Expecting path segment");
                 }
-            } else if !self.scanner.is_lower() {
+            } else {
                 break;
             }
         }
